@@ -24,7 +24,7 @@ CHECKS = {
             "Held on the cases explored: export in 3 layouts x import in 4 layouts x 2 byte orders must round-trip; ~45 invalid imports per curve (off-curve, coordinates >= p, non-residue x, y=0 and wrong-order points on the cofactor curves, wrong prefix bytes, every total length 0..2b+2) judged by the validity predicate, compressed input must give the requested parity; key generation, public from private and DH (4 peer layouts x cofactor flag, invalid peers) equal the reference and DH is symmetric; exact-size sweeps of rnd_size, sign_size, priv_key_size, hash_size, pub_key_size under ASan.",
             "trusted: oracles/ecdsa.py + oracles/ec.py (Tonelli-Shanks, true cofactor); hybrid prefixes 06/07 are not judged; curves sampled in quick (all 32 in thorough)", "DESIGN.md 4 C09"),
     "C04": ("exploration", "runtime monitoring: real hash code in every compiled transform variant (portable/SSE/SHA-NI/AVX/small tables, gcc+clang, -O0/-O2/-O3, ASan+UBSan, MSan) driven over exhaustive lengths, chunkings and alignments in exact-size buffers; hashlib and an independent Python Streebog decide; context non-interference monitor for zeroisation and a private-stack residue scan after the one-shot entry points (whose context is an automatic object)",
-            "Held on the cases explored: every length 0..4 blocks with one-shot, byte-wise, all 2-way and random k-way splits incl. empty updates, all 64 source alignments at padding-adjacent lengths, 64 KiB and 1 MiB+1 messages, bit-counter state injection near 2^29/2^32/2^61/2^64 (and 2^124 for SHA-512), every compiled-in transform forced through the dispatch flags; digests, reported sizes and hex text of the three entry points compared with hashlib / Python Streebog (validated on RFC 6986/7836); after final the context image must not depend on the message.",
+            "Held on the cases explored: every length 0..4 blocks with one-shot, byte-wise, all 2-way and random k-way splits incl. empty updates, all 64 source alignments at padding-adjacent lengths, 64 KiB and 1 MiB+1 messages, one call of 2^32+100 octets for SHA-2, bit-counter state injection near 2^29/2^32/2^61/2^64 (and 2^124 for SHA-512), every compiled-in transform forced through the dispatch flags; digests, reported sizes and hex text of the three entry points compared with hashlib / Python Streebog (validated on RFC 6986/7836); after final the context image must not depend on the message.",
             "trusted: Python hashlib; oracles/streebog.py and oracles/mdhash.py (self-tested against RFC vectors / hashlib in setup); variants that do not compile are recorded not_selectable; only gcc 12 and clang 14", "DESIGN.md 4 C04"),
     "C05": ("exploration", "runtime monitoring: real pool under ASan+UBSan+LSan and TSan, offline exactly-once/FIFO/affinity checker over a client-boundary event log, injected queue write/read faults, seeded schedule perturbation",
             "Held on the executions explored: hundreds of seeded scenarios (pool sizes 1-16, external/pool/self senders, all 8 flag combinations, never-started and STARTING destinations, shared virtual thread, pipe-full EAGAIN, injected EAGAIN/EPIPE/EBADF at the first 64 queue writes and sampled later ones, EINTR/EAGAIN on queue reads, shutdown with accepted messages still queued: behind the stop message, in a later read batch, in a full queue, in the virtual thread's queue, or written by a sender racing tp_shutdown) with every message carrying a unique id and every history checked offline; exploration because schedules are sampled, not enumerated.",
